@@ -190,6 +190,7 @@ pub fn kitchen_xsd() -> SchemaSet {
                 Particle::Choice(vec![el("Left", TypeRef::n(NS_A, "Code")), el("Right", TypeRef::n(NS_B, "CodeB"))]),
                 el("Tail", TypeRef::b("dateTime")),
             ],
+            doc: None,
         }),
         attrs: vec![
             Attr { name: "id".into(), ty: TypeRef::b("string"), required: true, value_constraint: None },
@@ -243,7 +244,7 @@ pub fn kitchen_xsd() -> SchemaSet {
         doc: Some("Global element with an anonymous type".into()),
         xmlns: vec![],
         kind: GlobalKind::Anonymous {
-            seq: Some(Seq::of(vec![el("Doc", TypeRef::n(NS_A, "Documented")), Particle::Ref(ElemRef { target: QName::new(NS_A, "TypedGlobal"), min: 0, max: Max::N(1) })])),
+            seq: Some(Seq::of(vec![el("Doc", TypeRef::n(NS_A, "Documented")), Particle::Ref(ElemRef { target: QName::new(NS_A, "TypedGlobal"), min: 0, max: Max::N(1), xmlns: vec![] })])),
             attrs: vec![Attr { name: "version".into(), ty: TypeRef::b("string"), required: false, value_constraint: None }],
         },
     }));
